@@ -511,5 +511,6 @@ pub fn property() -> Property {
             },
         ],
         assumptions: &["errors are compared by io::ErrorKind; temp files for from_path live under /verif/.build/tmp and are removed at once"],
+        enumerate: None,
     }
 }
